@@ -237,6 +237,7 @@ type genomeSpec struct {
 	HiddenFirst             bool // hidden nodes get ids before the outputs (as newGenomeRand does)
 	AllowBackEdges          bool // non-recurrent flagged genes may go against the node order
 	Activations             bool // random activation types on neurons
+	IdGaps                  bool // node ids ascend with gaps (ids are unique and ordered, nothing says they are contiguous)
 	SensorsLate             bool // the output nodes get the lowest ids, the sensors follow them (ids ascending, sensors not first)
 }
 
@@ -247,6 +248,7 @@ func genSpec(r *rand.Rand) genomeSpec {
 		GeneProb: 0.15 + r.Float64()*0.6, DisabledProb: pick(r, 0.0, 0.15, 0.4), RecurProb: pick(r, 0.0, 0.1, 0.3),
 		SelfLoopProb: pick(r, 0.0, 0.2), NilTraitProb: pick(r, 0.0, 0.3, 1.0), HiddenFirst: r.Intn(3) == 0,
 		AllowBackEdges: r.Intn(8) == 0, Activations: r.Intn(2) == 0, SensorsLate: r.Intn(8) == 0,
+		IdGaps: r.Intn(6) == 0,
 	}
 }
 
@@ -269,11 +271,20 @@ func buildGenome(r *rand.Rand, sp genomeSpec, id int) *genetics.Genome {
 		return sp.TraitBase + r.Intn(sp.Traits)
 	}
 	nextId := 1
+	step := func() {
+		nextId++
+		if sp.IdGaps {
+			nextId += r.Intn(4) * r.Intn(4)
+		}
+	}
+	if sp.IdGaps {
+		nextId = 1 + r.Intn(12)
+	}
 	var sensors, neurons []int
 	addSensor := func(neuron network.NodeNeuronType) {
 		s.Nodes = append(s.Nodes, SnapNode{Id: nextId, Neuron: byte(neuron), Act: byte(neatmath.NullActivation), TraitId: traitFor()})
 		sensors = append(sensors, nextId)
-		nextId++
+		step()
 	}
 	addSensors := func() {
 		if sp.Bias == 1 {
@@ -296,35 +307,35 @@ func buildGenome(r *rand.Rand, sp genomeSpec, id int) *genetics.Genome {
 		}
 		s.Nodes = append(s.Nodes, SnapNode{Id: nextId, Neuron: byte(neuron), Act: byte(act), TraitId: traitFor()})
 		neurons = append(neurons, nextId)
-		nextId++
+		step()
 	}
 	var hidden, outputs []int
 	if sp.SensorsLate {
 		for i := 0; i < sp.Outputs; i++ {
 			addNeuron(network.OutputNeuron)
-			outputs = append(outputs, nextId-1)
+			outputs = append(outputs, neurons[len(neurons)-1])
 		}
 		addSensors()
 		for i := 0; i < sp.Hidden; i++ {
 			addNeuron(network.HiddenNeuron)
-			hidden = append(hidden, nextId-1)
+			hidden = append(hidden, neurons[len(neurons)-1])
 		}
 	} else if sp.HiddenFirst {
 		for i := 0; i < sp.Hidden; i++ {
 			addNeuron(network.HiddenNeuron)
-			hidden = append(hidden, nextId-1)
+			hidden = append(hidden, neurons[len(neurons)-1])
 		}
 	}
 	if !sp.SensorsLate {
 		for i := 0; i < sp.Outputs; i++ {
 			addNeuron(network.OutputNeuron)
-			outputs = append(outputs, nextId-1)
+			outputs = append(outputs, neurons[len(neurons)-1])
 		}
 	}
 	if !sp.HiddenFirst && !sp.SensorsLate {
 		for i := 0; i < sp.Hidden; i++ {
 			addNeuron(network.HiddenNeuron)
-			hidden = append(hidden, nextId-1)
+			hidden = append(hidden, neurons[len(neurons)-1])
 		}
 	}
 	// topological rank for forward genes: sensors 0, hidden by index 1.., outputs last
